@@ -821,3 +821,99 @@ Example C18_parser_reading_examples :
   Cli.opt_default (ex_opt ["-v"]%string None None None false Cli.ActStoreTrue None) = Cli.LBool false.
 Proof. vm_compute. repeat split; reflexivity. Qed.
 End ParserExamples.
+
+(* ---- gap review g5 (C18): the globally served step; --seed declared but unread ----
+   The mirror image of C18_frame.  A step whose requests are ALL served from the process-global component - the training of the
+   variational grid model: set_rng stores the generator made from the seed and nothing reads it; numpy.random.choice,
+   torch.randperm and pyro's sample statements draw from the global numpy / torch generators (G is any type, e.g. their pair) -
+   is a function of the global state alone: the given generator is returned untouched and has no influence whatever. *)
+From Batchie Require Proofs.C18Unread Proofs.C18SourceParserSeedDeclared Proofs.C10SourceCli.
+
+Theorem C18_global_only_frame :
+  forall (Req Ans Out S G : Type) (ggen : G -> Req -> Ans * G) (wstep : S * G -> Req -> Ans * (S * G))
+         (p : prog Req Ans Out),
+  (forall s g r, wstep (s, g) r = (fst (ggen g r), (s, snd (ggen g r)))) ->
+  forall s g,
+    o_out (exec wstep p (s, g)) = o_out (exec ggen p g)
+    /\ o_reqs (exec wstep p (s, g)) = o_reqs (exec ggen p g)
+    /\ o_answers (exec wstep p (s, g)) = o_answers (exec ggen p g)
+    /\ o_final (exec wstep p (s, g)) = (s, o_final (exec ggen p g)).
+Proof. exact C18Unread.global_only_frame. Qed.
+Print Assumptions C18_global_only_frame.
+
+(* the seed is not an input of such a step: different given generators, same global state => same everything *)
+Theorem C18_given_generator_unread :
+  forall (Req Ans Out S G : Type) (ggen : G -> Req -> Ans * G) (p : prog Req Ans Out) (s1 s2 : S) (g : G),
+    o_out (exec (from_global ggen) p (s1, g)) = o_out (exec (from_global ggen) p (s2, g))
+    /\ o_reqs (exec (from_global ggen) p (s1, g)) = o_reqs (exec (from_global ggen) p (s2, g))
+    /\ o_answers (exec (from_global ggen) p (s1, g)) = o_answers (exec (from_global ggen) p (s2, g))
+    /\ fst (o_final (exec (from_global ggen) p (s1, g))) = s1
+    /\ snd (o_final (exec (from_global ggen) p (s1, g))) = snd (o_final (exec (from_global ggen) p (s2, g))).
+Proof. exact C18Unread.given_generator_unread. Qed.
+Print Assumptions C18_given_generator_unread.
+
+(* what the harness observation "repeatable modulo the known leak" relies on: from EQUAL global states (numpy / torch reseeded
+   identically, every unseeded construction given the same seed) even a globally served step is repeatable, so a difference
+   that remains has another cause than the recorded leak *)
+Theorem C18_global_only_repeatable_from_equal_global :
+  forall (Req Ans Out S G : Type) (ggen : G -> Req -> Ans * G) (p : prog Req Ans Out) (s : S) (g1 g2 : G),
+    g1 = g2 -> exec (from_global ggen) p (s, g1) = exec (from_global ggen) p (s, g2).
+Proof. exact C18Unread.global_only_repeatable_from_equal_global. Qed.
+Print Assumptions C18_global_only_repeatable_from_equal_global.
+
+(* non-vacuity: the witness program of C18_global_draws_refuted run with two different given generators *)
+Example C18_given_generator_unread_example :
+  o_out (exec (from_global C18RandProg.counter_gen) C18RandProg.leaky_prog (1, 5)) = 5
+  /\ o_out (exec (from_global C18RandProg.counter_gen) C18RandProg.leaky_prog (2, 5)) = 5
+  /\ o_final (exec (from_global C18RandProg.counter_gen) C18RandProg.leaky_prog (1, 5)) = (1, 6).
+Proof. vm_compute. repeat split; reflexivity. Qed.
+
+(* evaluate_model and analyze_model_evaluation DECLARE --seed as the four randomised commands do *)
+Theorem C18_source_parser_evaluate_model_seed :
+  Cli.seed_declared SrcParser_evaluate_model.src_parser_evaluate_model.
+Proof. exact C18SourceParserSeedDeclared.parser_evaluate_model_seed. Qed.
+Print Assumptions C18_source_parser_evaluate_model_seed.
+
+Theorem C18_source_parser_analyze_model_evaluation_seed :
+  Cli.seed_declared SrcParser_analyze_model_evaluation.src_parser_analyze_model_evaluation.
+Proof. exact C18SourceParserSeedDeclared.parser_analyze_model_evaluation_seed. Qed.
+Print Assumptions C18_source_parser_analyze_model_evaluation_seed.
+
+(* ... and evaluate_model.main does not need it: the WHOLE function, re-translated on every run, equals Cli.cli_evaluate_model, a
+   function of the library record and of Cli.ev_args = (screen, thetas, output) - no seed component, and no generator / draw
+   primitive in the configuration's vocabulary (the translator refuses any other call).  The command is deterministic in its
+   files; its unread --seed is therefore no violation of the property.  (Same statement as C10_model_is_source_cli_evaluate_model;
+   re-stated here so that C18 reports a broken obligation when this main() starts to read args.seed or to draw.) *)
+Theorem C18_model_is_source_cli_evaluate_model_seedless :
+  forall (Scr Th Pr PrT Ob Nm Ev : Type) (L : Cli.ev_lib Scr Th Pr PrT Ob Nm Ev) (a : Cli.ev_args),
+  SrcCli.src_cli_evaluate_model Scr Th Pr PrT Ob Nm Ev L a = Cli.cli_evaluate_model L a.
+Proof. exact C10SourceCli.src_cli_evaluate_model_is_model. Qed.
+Print Assumptions C18_model_is_source_cli_evaluate_model_seedless.
+
+(* ---- the initial cover (gap review g5, gap 6).  SparseCoverPlateGenerator is linked under C13 in state-passing form (the answer
+   stream `ds` an explicit argument, rng.choice(a, size=1) on the function's OWN generator argument the only primitive that reads it:
+   Generated/SrcRetroGen.v; np.random.*, default_rng(), torch are no primitives and are refused).  C18's statement for it: output and
+   unread rest depend on the consumed prefix of the answers only - of the model, and of the translated source with the fuel C13
+   proves sufficient.  (Kept LAST: its import closure is the C13 link file.) *)
+From Batchie Require Model.Retro Model.RetroInit Proofs.C18SparseCover.
+Theorem C18_sparse_cover_explicit_stream : forall ctrl reveal rows ds out ds',
+  RetroInit.sparse_cover ctrl reveal rows ds = Ok (out, ds') ->
+  exists used, ds = used ++ ds' /\ forall tail, RetroInit.sparse_cover ctrl reveal rows (used ++ tail) = Ok (out, tail).
+Proof. exact C18SparseCover.sparse_cover_explicit_stream. Qed.
+Print Assumptions C18_sparse_cover_explicit_stream.
+
+From Batchie Require Generated.SrcRetroGen Proofs.C13SparseTerm Proofs.C18SourceSparseCover.
+Theorem C18_source_sparse_cover_explicit_stream : forall ctrl reveal rows ds out ds',
+  SrcRetroGen.src_generate_and_unmask_initial_plate
+    (fun s d => SrcRetroGen.src_sparse_cover ctrl reveal s d (S (C13SparseTerm.ndistinct (RetroInit.all_tids ctrl rows)))) rows ds = Ok (out, ds') ->
+  exists used, ds = used ++ ds' /\
+    forall tail, SrcRetroGen.src_generate_and_unmask_initial_plate
+                   (fun s d => SrcRetroGen.src_sparse_cover ctrl reveal s d (S (C13SparseTerm.ndistinct (RetroInit.all_tids ctrl rows)))) rows (used ++ tail)
+                 = Ok (out, tail).
+Proof. exact C18SourceSparseCover.src_sparse_cover_explicit_stream. Qed.
+Print Assumptions C18_source_sparse_cover_explicit_stream.
+
+(* non-vacuity: C13's own examples run sparse_cover on concrete screens (Props/C13.v); here only that the prefix may be proper *)
+Example C18_sparse_cover_empty_screen_example :
+  RetroInit.sparse_cover [] false [] [Retro.DInts [7%nat]] = Ok ([], [Retro.DInts [7%nat]]).
+Proof. vm_compute. reflexivity. Qed.
